@@ -47,6 +47,8 @@ extern crate alloc;
 
 /// Low level implementation primitives.
 pub mod core;
+#[cfg(paseto_rs_verif)]
+pub mod verif_hooks;
 
 pub use paseto_core::PasetoError;
 
